@@ -238,7 +238,7 @@ func (e *Env) VerifyFunc(fn *ssa.Function, ct *Contract, maxPaths int) *FuncResu
 		args, ev, _ := e.bindArgs(ex, fn, ct)
 		e.snapshotOld(ex, fn, args, ev)
 		if ct != nil {
-			for _, r := range ct.Requires {
+			for _, r := range append(append([]*Clause{}, ct.Assumes...), ct.Requires...) {
 				r := r
 				// evaluated over the entry snapshot so that a later re-evaluation (after a
 				// collection is revealed) still speaks about the entry state
@@ -556,6 +556,9 @@ func (ex *Exec) applyContractSig(fr *frame, calleeKey string, pkg *types.Package
 		}
 		ev.vars[n] = tval{cands[n][0], nil}
 	}
+	for _, r := range ct.Assumes {
+		ex.assume(ev.bool(r.Expr))
+	}
 	for _, r := range ct.Requires {
 		g := ev.bool(r.Expr)
 		if ex.inSpec == 0 {
@@ -678,6 +681,9 @@ func (ex *Exec) applyContractSig(fr *frame, calleeKey string, pkg *types.Package
 	inst = func(i int) {
 		if i == len(fnames) {
 			for _, c := range ct.Ensures {
+				if !ex.relevantClause(c) {
+					continue
+				}
 				ex.assume(ev.bool(c.Expr))
 			}
 			return
@@ -1120,4 +1126,36 @@ func (e *Env) CommuteCheck(fn *ssa.Function, ct *Contract, c *Clause, maxPaths i
 		}
 	}
 	return fr
+}
+
+// relevantClause: a callee postcondition tagged with property ids is assumed only when the
+// function under verification has a clause for one of those properties (assuming less is
+// always sound; it keeps the facts of unrelated properties out of the path conditions).
+func (ex *Exec) relevantClause(c *Clause) bool {
+	if len(c.Tags) == 0 || ex.TopFn == nil {
+		return true
+	}
+	top := ex.Cfg.Contracts[ex.TopFn]
+	if top == nil {
+		return true
+	}
+	if ex.topTags == nil {
+		ex.topTags = map[string]bool{}
+		for _, l := range [][]*Clause{top.Requires, top.Ensures, top.OnPanic, top.Assumes, top.Mints, top.Burns} {
+			for _, x := range l {
+				for _, t := range x.Tags {
+					ex.topTags[t] = true
+				}
+			}
+		}
+	}
+	if len(ex.topTags) == 0 {
+		return true
+	}
+	for _, t := range c.Tags {
+		if ex.topTags[t] {
+			return true
+		}
+	}
+	return false
 }
